@@ -377,6 +377,14 @@ func ruleJ3(c *Ctx, adj *Module) {
 			}
 			// v is the ok of a lookup of name in the table of valid names
 			isValidOK := func(v, name ssa.Value) bool {
+				// valid.has(name): a membership method of a set type
+				if mv, k, ok := adj.mapHasCall(v); ok && k == name {
+					if u, ok := mv.(*ssa.UnOp); ok {
+						if g, ok := u.X.(*ssa.Global); ok && g.Name() == "valid" {
+							return true
+						}
+					}
+				}
 				if ex, ok := v.(*ssa.Extract); ok && ex.Index == 1 {
 					if lk, ok := ex.Tuple.(*ssa.Lookup); ok && lk.Index == name {
 						if u, ok := lk.X.(*ssa.UnOp); ok {
